@@ -146,7 +146,7 @@ func runC13(c *Ctx) {
 		fn := fn
 		retIdx := errResultIndex(fn.Signature)
 		isSite := func(_ *walk.Path, cl walk.Call) bool { return fam.name(cl.C) != "" }
-		c.Walk(rule, fn, func(p *walk.Path) {
+		c.WalkShallow(rule, fn, func(p *walk.Path) {
 			if _, ok := p.Exit.(*ssa.Return); !ok {
 				return
 			}
@@ -253,7 +253,7 @@ func runC13(c *Ctx) {
 			}
 			n := 0
 			c.Walk(rule, fn, func(p *walk.Path) {
-				for _, rd := range p.Find(walk.Static(redirect), p.End()) {
+				for _, rd := range p.FindTop(walk.Static(redirect), p.End()) {
 					n++
 					key := "redirect|" + fnKey(fn)
 					if _, ok := Has(p, rd.Idx, Need{M: walk.Or(walk.Static(saveSess), walk.Invoke(c.P, storeSave)), Idx: -1, Out: ErrNil}); ok {
